@@ -103,6 +103,7 @@ func NewProcess(opts ...ProcOpts) *Process {
 }
 
 func (p *Process) run() int {
+	verifGate(p, "run.precheck")
 	if p.isState(types.ProcessStateTerminating) {
 		return 0
 	}
@@ -113,9 +114,11 @@ func (p *Process) run() int {
 		return 1
 	}
 
+	verifGate(p, "run.validated")
 	p.onProcessStart()
 loop:
 	for {
+		verifGate(p, "run.launch")
 		err := p.setStateAndRun(p.getStartingStateName(), p.getProcessStarter())
 		if err != nil {
 			log.Error().Err(err).Msgf(`Failed to run command ["%v"] for process %s`, strings.Join(p.getCommand(), `" "`), p.getName())
@@ -128,6 +131,7 @@ loop:
 		p.stateMtx.Lock()
 		p.procState.Pid = p.command.Pid()
 		p.stateMtx.Unlock()
+		verifTrace(p, "Launched", "pid", p.command.Pid())
 		log.Info().
 			Str("process", p.getName()).
 			Strs("command", p.getCommand()).
@@ -137,9 +141,11 @@ loop:
 
 		p.waitForStdOutErr()
 		_ = p.command.Wait()
+		verifGate(p, "run.reaped")
 		p.Lock()
 		p.setExitCode(p.command.ExitCode())
 		p.Unlock()
+		verifTrace(p, "Reaped", "code", p.getExitCode())
 		log.Info().
 			Str("process", p.getName()).
 			Int("exit_code", p.getExitCode()).
@@ -150,14 +156,17 @@ loop:
 			p.waitForDaemonCompletion()
 		}
 
+		verifGate(p, "run.decide")
 		if !p.isRestartable() {
 			break
 		}
 		p.setState(types.ProcessStateRestarting)
 		p.procState.Restarts += 1
+		verifTrace(p, "Restarting", "restarts", p.procState.Restarts)
 		log.Info().Msgf("Restarting %s in %v second(s)... Restarts: %d",
 			p.getName(), p.getBackoff().Seconds(), p.procState.Restarts)
 
+		verifGate(p, "run.backoff")
 		select {
 		case <-p.procRunCtx.Done():
 			log.Debug().Str("process", p.getName()).Msg("process stopped while waiting to restart")
@@ -232,6 +241,9 @@ func (p *Process) getProcessStarter() func() error {
 }
 
 func (p *Process) getCommander() command.Commander {
+	if c := verifCommander(p); c != nil {
+		return c
+	}
 	if p.procConf.IsTty && !p.isMain {
 		return command.BuildPtyCommand(
 			p.procConf.Executable,
@@ -266,6 +278,9 @@ func (p *Process) getBackoff() time.Duration {
 	backoff := 1
 	if p.procConf.RestartPolicy.BackoffSeconds > backoff {
 		backoff = p.procConf.RestartPolicy.BackoffSeconds
+	}
+	if d, ok := verifBackoff(p, time.Duration(backoff)*time.Second); ok {
+		return d
 	}
 	return time.Duration(backoff) * time.Second
 }
@@ -376,14 +391,17 @@ func (p *Process) internalStop() error {
 
 func (p *Process) stopProcess(cancelReadinessFuncs bool) error {
 	p.runCancelFn()
+	verifGate(p, "stop.cancelled")
 	if !p.isRunning() {
 		log.Debug().Msgf("process %s is in state %s not shutting down", p.getName(), p.getStatusName())
+		verifGate(p, "stop.checked.notrunning")
 		// prevent pending process from running
 		if p.isOneOfStates(types.ProcessStatePending) {
 			p.onProcessEnd(types.ProcessStateTerminating)
 		}
 		return nil
 	}
+	verifGate(p, "stop.checked.running")
 	p.setState(types.ProcessStateTerminating)
 	p.stopProbes()
 	if cancelReadinessFuncs {
@@ -415,6 +433,7 @@ func (p *Process) forceKillOnTimeout() error {
 	case errors.Is(err, context.Canceled):
 		return nil
 	case errors.Is(err, context.DeadlineExceeded):
+		verifGate(p, "stop.kill")
 		log.Debug().Msgf("process failed to shut down within %d seconds, sending %d", p.procConf.ShutDownParams.ShutDownTimeout, syscall.SIGKILL)
 		return p.command.Stop(int(syscall.SIGKILL), p.procConf.ShutDownParams.ParentOnly)
 	default:
@@ -464,6 +483,7 @@ func (p *Process) onProcessStart() {
 	p.Lock()
 	p.started = true
 	p.Unlock()
+	verifTrace(p, "Started")
 	close(p.procStartedChan)
 }
 
@@ -486,6 +506,7 @@ func (p *Process) onProcessEnd(state string) {
 
 	p.Lock()
 	p.done = true
+	verifTrace(p, "Done", "status", state, "exit", p.getExitCode())
 	p.Unlock()
 	p.procCond.Broadcast()
 }
@@ -616,6 +637,7 @@ func (p *Process) handleOutput(pipe io.ReadCloser, output string, handler func(m
 		}
 		if p.procConf.ReadyLogLine != "" && p.procState.Health == types.ProcessHealthUnknown && strings.Contains(line, p.procConf.ReadyLogLine) {
 			p.procState.Health = types.ProcessHealthReady
+			verifTrace(p, "ReadyLine", "stream", output)
 			p.readyLogCancelFn(nil)
 		}
 		p.checkElevatedProcOutput(line)
@@ -730,6 +752,7 @@ func (p *Process) onStateChange(state string) {
 	case types.ProcessStateTerminating:
 		p.procState.Health = types.ProcessHealthUnknown
 	}
+	verifTrace(p, "State", "status", state, "exit", p.getExitCode(), "health", p.procState.Health, "restarts", p.procState.Restarts)
 }
 
 func (p *Process) getStartingStateName() string {
@@ -787,6 +810,7 @@ func (p *Process) stopProbes() {
 }
 
 func (p *Process) onLivenessCheckEnd(_, isFatal bool, err string) {
+	verifTrace(p, "Probe", "kind", "live", "ok", !isFatal, "fatal", isFatal)
 	if isFatal {
 		log.Info().Msgf("%s is not alive anymore - %s", p.getName(), err)
 		p.logBuffer.Write("Error: liveness check fail - " + err)
@@ -795,6 +819,7 @@ func (p *Process) onLivenessCheckEnd(_, isFatal bool, err string) {
 }
 
 func (p *Process) onReadinessCheckEnd(isOk, isFatal bool, err string) {
+	verifTrace(p, "Probe", "kind", "ready", "ok", isOk, "fatal", isFatal)
 	if isFatal {
 		p.procState.Health = types.ProcessHealthNotReady
 		log.Info().Msgf("%s is not ready anymore - %s", p.getName(), err)
